@@ -187,8 +187,9 @@ def check(ctx):
     # the centroid statement presupposes that the statistics file holds
     # the true cluster sums: the merge of the worker buffers adds each
     # piece exactly once (shared with C09)
-    from .C09 import check_merge_loops
+    from .C09 import check_merge_loops, check_per_file_state
     check_merge_loops(ctx)
+    check_per_file_state(ctx)
 
 
 # ----------------------------------------------------------------------
